@@ -1,5 +1,5 @@
 SPECIFICATION Spec
-CONSTANTS MaxLen = 4  MaxV = 3  Wts = {1, 2}  CoSort = TRUE  ZerosFirst = FALSE  PosRule = "mid"
+CONSTANTS MaxLen = 3  MaxV = 3  Wts = {1, 2}  CoSort = TRUE  ZerosFirst = FALSE  PosRule = "mid"  SharedPos = FALSE  HistLen = 2
 CHECK_DEADLOCK FALSE
 INVARIANT OutcomeTable
 INVARIANT MachineIsPipeline
@@ -9,3 +9,4 @@ INVARIANT WeightsStayWithData
 INVARIANT OrderInvariant
 INVARIANT KeywordEqualsArray
 INVARIANT NoneEqualsOnes
+INVARIANT LinearisedForOwnDelta
